@@ -2,7 +2,6 @@ package dnsmsg
 
 import (
 	"bytes"
-	"strconv"
 
 	"github.com/IrineSistiana/mosproxy/internal/pool"
 )
@@ -120,7 +119,8 @@ func appendEscapedLabel(dst []byte, label []byte) []byte {
 			case '\\':
 				dst = append(dst, "\\\\"...)
 			default:
-				dst = strconv.AppendUint(dst, uint64(b), 10)
+				// "\DDD", always three decimal digits.
+				dst = append(dst, '\\', '0'+b/100, '0'+b/10%10, '0'+b%10)
 			}
 		}
 	}
